@@ -7,8 +7,39 @@ tick model without +-1 ulp noise.  The scheduler knob: `shuffle` permutes callba
 `jitter_ms` delays every timer by a seeded 0..jitter_ms whole milliseconds.  One seed is one schedule.
 """
 import asyncio
+import signal
+import threading
 
 import vloop
+
+
+class Hang(Exception):
+    """the code under test did not give control back (a loop without a suspension point)"""
+
+
+class watchdog:
+    """wall-clock guard around one virtual run: a synchronous infinite loop in the code under test becomes an exception
+    (so a mutated tree yields a verdict instead of a hung check). Main thread only; elsewhere it is a no-op."""
+
+    def __init__(self, seconds):
+        self.seconds = seconds
+        self.active = False
+
+    def _fire(self, *a):
+        raise Hang(f"no progress for {self.seconds} s of wall time (synchronous loop without a suspension point?)")
+
+    def __enter__(self):
+        if threading.current_thread() is threading.main_thread():
+            self.old = signal.signal(signal.SIGALRM, self._fire)
+            signal.setitimer(signal.ITIMER_REAL, self.seconds)
+            self.active = True
+        return self
+
+    def __exit__(self, *a):
+        if self.active:
+            signal.setitimer(signal.ITIMER_REAL, 0)
+            signal.signal(signal.SIGALRM, self.old)
+        return False
 
 
 class QLoop(vloop.VLoop):
